@@ -322,7 +322,7 @@ def rule_unres(model: Model, funcs: list[Func], check_external=True) -> list[Ob]
                     continue
                 seen.add(n.id)
                 ok = (n.id in bound or n.id in m.defs or n.id in m.imports or n.id in m.globals_assigned
-                      or hasattr(builtins, n.id))
+                      or hasattr(builtins, n.id) or n.id.startswith("_ttsa_"))
                 k = key(f, "UNRES", n.id)
                 if ok:
                     obs.append(Ob("UNRES", k, OK, model.where(f, n), n.id, "resolves", nontrivial=False))
